@@ -19,7 +19,7 @@ def run(ctx: Ctx):
     ctx.assumptions = ['finite probes only (the property speaks of the real line)',
                        'order-isomorphic rank codes stand for the real numbers']
     c09.design(ctx)
-    cc.design_runs(ctx, ['Inv_C03'])
+    cc.design_runs(ctx, ['Inv_C03'], thorough=cc.DESIGN_QUICK + ['MC_Carver_thorough.cfg'])
     estprops.design(ctx)
     ctx.notes['design_invariants'] = ['Inv_C03_Runs (BaseStage)', 'Inv_C03 (Carver)', 'Inv_C03_Monotone (Estimator)']
     bc.pipeline(ctx, ['C03_'])
